@@ -242,7 +242,7 @@ def load_known():
 
 def match_known(prop, key, known):
     for f in known:
-        if f.get("property") == prop and f.get("status") == "open" and key is not None and fnmatch.fnmatchcase(key, f.get("key", "")):
+        if f.get("property") in (prop, "*") and f.get("status") == "open" and key is not None and fnmatch.fnmatchcase(key, f.get("key", "")):
             return f
     return None
 
